@@ -8,6 +8,7 @@ is needed.  Loops are cut at invariants, calls of functions that have a contract
 contract, everything else from /repo is inlined from its real AST.
 """
 import ast
+import os
 import builtins
 import functools
 import hashlib
@@ -253,6 +254,7 @@ class Run(object):
         self.trace = []
         self.pc = []
         self.derived = set()         # indices in pc of facts that were proved (asserted then assumed)
+        self.seq = 0                 # ordinal of the next obligation on this path
         self.new_prefixes = []
 
 
@@ -345,6 +347,7 @@ class Engine(object):
         self.max_unroll = max_unroll
         self.run = None
         self.obligations = []
+        self.emitted = set()
         self.undecided = []          # (where, reason)
         self.covers = 0
         self.paths = 0
@@ -457,9 +460,15 @@ class Engine(object):
         for label, e in pairs:
             e = z3.simplify(e)
             nm = "%s%s@L%d" % (kind, ("/" + label) if label else "", lineno)
-            ob = Obligation(nm, kind, list(self.run.pc), e, lineno, detail, self.run.trace)
-            ob.derived = set(self.run.derived)
-            self.obligations.append(ob)
+            # a path replays the decisions of its prefix: an obligation reached with the same decision
+            # prefix was already emitted by an earlier path (same state, same formula)
+            self.run.seq += 1
+            key = (tuple(self.run.trace), self.run.seq, nm)
+            if key not in self.emitted:
+                self.emitted.add(key)
+                ob = Obligation(nm, kind, list(self.run.pc), e, lineno, detail, self.run.trace)
+                ob.derived = set(self.run.derived)
+                self.obligations.append(ob)
             self.run.derived.add(len(self.run.pc))
             self.run.pc.append(e)
 
@@ -479,6 +488,7 @@ class Engine(object):
             if n > self.max_paths:
                 self.undecide(where, "path explosion (> %d paths)" % self.max_paths)
                 break
+            t_path = time.time()
             try:
                 thunk()
             except PathEnd:
@@ -488,6 +498,8 @@ class Engine(object):
             except RecursionError:
                 self.undecide(where, "engine recursion limit")
             work.extend(self.run.new_prefixes)
+            if os.environ.get("PYVC_TRACE"):
+                sys.stderr.write("path %d len=%d decisions=%s pc=%d obls=%d %.2fs queue=%d\n" % (n, len(self.run.trace), "".join("T" if x else "F" for x in self.run.trace)[-40:], len(self.run.pc), len(self.obligations), time.time() - t_path, len(work)))
         return n
 
     # ---------------------------------------------------------------- values
